@@ -1129,9 +1129,10 @@ fn kf_decimal(line: &str) -> bool {
     pre_overflow || interm
 }
 
-const KF_DICT: &str = "kf:dict-null-values-aggregate";
+// repaired in /repo (e907f2a, c11cbae): histogram tags only, no known-finding key refers to them
+const KF_DICT: &str = "repaired:dict-null-values-aggregate";
 const KF_REE: &str = "kf:ree-sum-checked-run-product";
-const KF_REE_SLICE: &str = "kf:ree-sliced-sum-run-length";
+const KF_REE_SLICE: &str = "repaired:ree-sliced-sum-run-length";
 
 /// structural predicates (implementation independent) for the aggregate findings
 fn kf_agg2(line: &str) -> Option<&'static str> {
